@@ -281,15 +281,115 @@ def env_from_json(d):
 
 
 _CONC_CACHE = {}
+_SERVER = None        # (pid, connection) of the pristine concrete-run server of this worker
+_CUR_OB = None
+
+
+class ConcResult:
+    """what a concrete run leaves behind (picklable)"""
+
+    def __init__(self, claims, log):
+        self.claims, self.log = claims, log
+
+
+def start_concrete_server(ob):
+    """Fork a pristine copy of this worker NOW (before any symbolic path has run).  Every concrete run (replay of a solver
+    model, encoding validation) is executed in a grandchild forked from that copy, so that module-level state left behind
+    by symbolic paths or by earlier replays - e.g. a cache introduced by the code under test - cannot leak into it."""
+    global _SERVER, _CUR_OB
+    import multiprocessing
+    stop_concrete_server()
+    _CUR_OB = ob
+    a, b = multiprocessing.Pipe()
+    pid = os.fork()
+    if pid == 0:
+        try:
+            a.close()
+            _serve(b)
+        finally:
+            os._exit(0)
+    b.close()
+    _SERVER = (pid, a)
+
+
+def stop_concrete_server():
+    global _SERVER
+    if _SERVER is None:
+        return
+    pid, conn = _SERVER
+    _SERVER = None
+    try:
+        conn.send(None)
+        conn.close()
+    except Exception:      # noqa: BLE001
+        pass
+    try:
+        os.waitpid(pid, 0)
+    except Exception:      # noqa: BLE001
+        pass
+
+
+def _serve(conn):
+    import multiprocessing
+    import signal
+    signal.alarm(0)
+    signal.signal(signal.SIGALRM, signal.SIG_DFL)
+    while True:
+        try:
+            msg = conn.recv()
+        except EOFError:
+            return
+        if msg is None:
+            return
+        env, purpose = msg
+        r, w = multiprocessing.Pipe(duplex=False)
+        gp = os.fork()
+        if gp == 0:
+            try:
+                r.close()
+                try:
+                    h, exc = _run_concrete(_CUR_OB, env, purpose)
+                    out = ('ok', [(c.cid, bool(c.holds), {k: bool(v) for k, v in c.regions.items()}, None if c.info is None else _short(c.info, 400))
+                                  for c in h.claims], [str(x)[:2000] for x in h.log], None if exc is None else repr(exc)[:400])
+                except symx.Unsupported as e:
+                    out = ('unsupported', str(e)[:600])
+                except BaseException as e:     # noqa: BLE001
+                    out = ('crash', repr(e)[:600])
+                w.send(out)
+            finally:
+                os._exit(0)
+        w.close()
+        out = ('crash', 'concrete run exceeded 600 s')
+        try:
+            if r.poll(600):
+                out = r.recv()
+            else:
+                os.kill(gp, signal.SIGKILL)
+        except EOFError:
+            out = ('crash', 'concrete run died without a result')
+        try:
+            os.waitpid(gp, 0)
+        except Exception:      # noqa: BLE001
+            pass
+        conn.send(out)
 
 
 def run_concrete(ob, env, purpose):
     """Re-run the obligation's harness with floats taken from env (memoised per environment: a path with many failing
-    claims is replayed once)."""
+    claims is replayed once).  Returns (result with .claims/.log, exception-or-None)."""
     key = (ob.oid, purpose, json.dumps(env_to_json(env), sort_keys=True, default=str))
     if key in _CONC_CACHE:
         return _CONC_CACHE[key]
-    r = _run_concrete(ob, env, purpose)
+    if _SERVER is not None and _CUR_OB is ob:
+        _SERVER[1].send((env, purpose))
+        out = _SERVER[1].recv()
+        if out[0] == 'unsupported':
+            raise symx.Unsupported(out[1])
+        if out[0] == 'crash':
+            raise symx.Unsupported(f'concrete run crashed: {out[1]}')
+        r = (ConcResult([Claim(c, hd, rg, inf) for c, hd, rg, inf in out[1]], out[2]), out[3])
+    else:
+        r = _run_concrete(ob, env, purpose)
     if len(_CONC_CACHE) > 64:
         _CONC_CACHE.clear()
     _CONC_CACHE[key] = r
@@ -323,6 +423,13 @@ def _short(x, n=300):
 
 
 def discharge(ob, findings, prop, tier):
+    try:
+        return _discharge(ob, findings, prop, tier)
+    finally:
+        stop_concrete_server()
+
+
+def _discharge(ob, findings, prop, tier):
     """Explore the obligation and decide every claim.  Returns a picklable dict."""
     t_start = time.time()
     stats = symx.new_stats()
@@ -359,6 +466,7 @@ def discharge(ob, findings, prop, tier):
             raise symx.Abort('infeasible after assumptions')
         return h
 
+    start_concrete_server(ob)
     try:
         paths = symx.explore(fn, stats=stats, max_paths=ob.max_paths, wall_s=ob.wall_s)
     except symx.Budget as e:
